@@ -323,3 +323,213 @@ Proof.
   destruct (refine_cmd_changed c Ec) as (r & op & ns & H1 & H2 & H3 & ->).
   exists r, op, ns. auto.
 Qed.
+
+(* ================================================================== dump: text = commands *)
+Lemma sapp_assoc : forall a b c : string, ((a ++ b) ++ c)%string = (a ++ b ++ c)%string.
+Proof. induction a as [|x a IH]; intros; simpl; [reflexivity | rewrite IH; reflexivity]. Qed.
+
+Lemma named_text_cmds : forall ids, named_text ids = unlines (map render (dump_named_cmds ids)).
+Proof.
+  induction ids as [|i r IH]; [reflexivity|].
+  cbn [named_text dump_named_cmds map unlines]. fold (dump_named_cmds r). rewrite <- IH.
+  unfold named_assertion, named_assertion_sx, nl.
+  repeat (progress (cbn; rewrite ?sapp_assoc, ?append_empty_r)). reflexivity.
+Qed.
+
+Lemma dump_text_plain : forall smtlib ids,
+  dump_text false smtlib ids =
+  (unlines (map render dump_plain_pre_sx) ++ smtlib ++ nl ++ unlines (map render dump_plain_post_sx))%string.
+Proof.
+  intros. unfold dump_text, dump_plain, dump_plain_pre_sx, dump_plain_post_sx, nl.
+  repeat (progress (cbn; rewrite ?sapp_assoc, ?append_empty_r)). reflexivity.
+Qed.
+
+Lemma dump_text_cached : forall smtlib ids,
+  dump_text true smtlib ids =
+  (unlines (map render dump_cached_pre_sx) ++ smtlib ++ nl ++
+   unlines (map render (dump_named_cmds ids)) ++ unlines (map render dump_cached_post_sx))%string.
+Proof.
+  intros. rewrite <- named_text_cmds.
+  unfold dump_text, dump_cached, dump_cached_pre_sx, dump_cached_post_sx, nl.
+  repeat (progress (cbn; rewrite ?sapp_assoc, ?append_empty_r)). reflexivity.
+Qed.
+
+(* ================================================================== named assertions *)
+Lemma named_equisat_prop : forall cs : list Prop,
+  (exists ids : list bool,
+      Forall2 (fun (id : bool) (c : Prop) => id = true -> c) ids cs /\
+      Forall (fun id => id = true) ids)
+  <-> Forall (fun c : Prop => c) cs.
+Proof.
+  induction cs as [|c cs IH]; split.
+  - intros _. constructor.
+  - intros _. exists []. split; constructor.
+  - intros (ids & H2 & Hall). inversion H2 as [|id c' ids' cs' Hic Hrest]; subst.
+    inversion Hall; subst. constructor; [auto|]. apply IH. exists ids'. auto.
+  - intros H. inversion H as [|c' cs' Hc Hcs]; subst.
+    destruct (proj2 IH Hcs) as (ids & H2 & Hall).
+    exists (true :: ids). split; constructor; auto.
+Qed.
+
+Section PathProofs.
+  Variable cond : Type.
+  Variable cond_eqb : cond -> cond -> bool.
+  Variable simp : cond -> cond.
+  Variable is_true : cond -> bool.
+  Variable vars : cond -> list Z.
+  Variable cid : cond -> Z.
+  Variable env : Type.
+  Variable sem : env -> cond -> Prop.
+
+  (* what z3 is trusted for *)
+  Hypothesis simp_sound : forall e c, sem e (simp c) <-> sem e c.
+  Hypothesis is_true_sound : forall c, is_true c = true -> forall e, sem e c.
+  Hypothesis eqb_sound : forall c d, cond_eqb c d = true -> forall e, sem e c <-> sem e d.
+
+  Notation path := (path cond).
+  Notation append := (append cond cond_eqb simp is_true vars).
+  Notation step := (step cond cond_eqb simp is_true vars).
+  Notation run := (run cond cond_eqb simp is_true vars).
+  Notation conds p := (map fst (conditions p)).
+
+  Notation add_all := (add_all cond cond_eqb simp is_true).
+
+  Lemma has_cond_map : forall c l, has_cond cond cond_eqb c l = existsb (cond_eqb c) (map fst l).
+  Proof. intros c l. unfold has_cond. induction l as [|x l IH]; simpl; [reflexivity | rewrite IH; reflexivity]. Qed.
+
+  Lemma append_conds : forall p c b, conds (append p c b) = add_all (conds p) [c].
+  Proof.
+    intros p c b. unfold SmtTextModel.append. simpl. rewrite has_cond_map.
+    destruct (is_true (simp c)); simpl; [reflexivity|].
+    destruct (existsb (cond_eqb (simp c)) (conds p)); simpl; [reflexivity|].
+    rewrite map_app. reflexivity.
+  Qed.
+
+  Lemma add_all_app : forall cs1 cs2 acc, add_all acc (cs1 ++ cs2) = add_all (add_all acc cs1) cs2.
+  Proof.
+    induction cs1 as [|c cs1 IH]; intros; simpl; [reflexivity|].
+    destruct (is_true (simp c) || existsb (cond_eqb (simp c)) acc); apply IH.
+  Qed.
+
+  Lemma step_conds : forall p o q, step p o = Some q ->
+    conds q = add_all (conds p) (accumulated cond [o]).
+  Proof.
+    intros p o q H. destruct o as [c b|c|vs|s0]; simpl in H; simpl.
+    - inversion H; subst. apply append_conds.
+    - unfold branch in H. destruct (pending p) eqn:Hp; [|discriminate]. inversion H; subst.
+      unfold activate, extend. cbn [pending conditions fold_left].
+      rewrite append_conds. reflexivity.
+    - unfold slice in H. destruct (sliced p); [discriminate|]. inversion H; subst. reflexivity.
+    - inversion H; subst. reflexivity.
+  Qed.
+
+  Lemma run_conds : forall ops p q, run p ops = Some q ->
+    conds q = add_all (conds p) (accumulated cond ops).
+  Proof.
+    induction ops as [|o ops IH]; intros p q H; simpl in H.
+    - inversion H; subst. reflexivity.
+    - destruct (step p o) as [p'|] eqn:Hs; [|discriminate].
+      assert (Hacc : accumulated cond (o :: ops) = (accumulated cond [o] ++ accumulated cond ops)%list).
+      { unfold accumulated. simpl. rewrite app_nil_r. reflexivity. }
+      rewrite Hacc, add_all_app, <- (step_conds _ _ _ Hs).
+      apply IH. exact H.
+  Qed.
+
+  Lemma add_all_sem : forall e cs acc,
+    Forall (sem e) (add_all acc cs) <-> Forall (sem e) acc /\ Forall (sem e) cs.
+  Proof.
+    induction cs as [|c cs IH]; intros acc; simpl.
+    - split; [intros H; split; [exact H | constructor] | intros [H _]; exact H].
+    - destruct (is_true (simp c)) eqn:Ht; simpl.
+      + rewrite IH. split; intros [Ha Hc]; split; auto.
+        * constructor; [apply simp_sound; apply is_true_sound; exact Ht | exact Hc].
+        * inversion Hc; assumption.
+      + destruct (existsb (cond_eqb (simp c)) acc) eqn:Hex.
+        * rewrite IH. apply existsb_exists in Hex. destruct Hex as (d & Hd & He).
+          split; intros [Ha Hc]; split; auto.
+          -- constructor; [|exact Hc]. apply simp_sound. apply (eqb_sound _ _ He).
+             rewrite Forall_forall in Ha. apply Ha. exact Hd.
+          -- inversion Hc; assumption.
+        * rewrite IH. rewrite Forall_app. split.
+          -- intros [[Ha Hs] Hc]. split; [exact Ha|]. constructor; [|exact Hc].
+             inversion Hs; subst. apply simp_sound. assumption.
+          -- intros [Ha Hc]. inversion Hc; subst. repeat split; auto.
+             constructor; [apply simp_sound; assumption | constructor].
+  Qed.
+
+  (* Path.to_smt2 + solve.dump assert exactly `conditions`, plain or tracked+named *)
+  Lemma dump_plain_sem : forall e b (p : path),
+    Forall (holds sem e b) (dump_asserts false (to_smt2 cond cid p false)) <-> Forall (sem e) (conds p).
+  Proof.
+    intros e b p. unfold dump_asserts, to_smt2. simpl. rewrite app_nil_r.
+    rewrite map_map. rewrite !Forall_forall. split; intros H x Hx.
+    - apply in_map_iff in Hx. destruct Hx as (cb & <- & Hin).
+      apply (H (APlain (fst cb))). apply in_map_iff. exists cb. auto.
+    - apply in_map_iff in Hx. destruct Hx as (cb & <- & Hin). simpl.
+      apply H. apply in_map. exact Hin.
+  Qed.
+
+  Lemma dump_cached_sem : forall e (p : path),
+    (exists b, Forall (holds sem e b) (dump_asserts true (to_smt2 cond cid p true)))
+    <-> Forall (sem e) (conds p).
+  Proof.
+    intros e p. unfold dump_asserts, to_smt2. simpl. rewrite !map_map. split.
+    - intros (b & H). rewrite Forall_app in H. destruct H as [Ht Hn].
+      rewrite Forall_forall in *. intros c Hc.
+      apply in_map_iff in Hc. destruct Hc as (cb & <- & Hin).
+      assert (Hb : b (cid (fst cb)) = true).
+      { apply (Hn (ANamed (cid (fst cb)))). apply in_map_iff. exists cb. auto. }
+      apply (Ht (ATracked (cid (fst cb)) (fst cb))); [|exact Hb].
+      apply in_map_iff. exists cb. auto.
+    - intros H. exists (fun _ => true). rewrite Forall_app. rewrite !Forall_forall in *. split.
+      + intros a Ha. apply in_map_iff in Ha. destruct Ha as (cb & <- & Hin). simpl.
+        intros _. apply H. apply in_map. exact Hin.
+      + intros a Ha. apply in_map_iff in Ha. destruct Ha as (cb & <- & Hin). reflexivity.
+  Qed.
+
+  (* the ids handed to the unsat-core cache are the ids of the conditions, in order *)
+  Lemma to_smt2_ids : forall (p : path) cs, snd (to_smt2 cond cid p cs) = map cid (conds p).
+  Proof. intros. unfold to_smt2. simpl. rewrite map_map. reflexivity. Qed.
+
+  Lemma to_smt2_asserted : forall (p : path) cs,
+    map (fun a => match a with QPlain c => c | QTracked _ c => c end) (fst (to_smt2 cond cid p cs)) = conds p.
+  Proof.
+    intros. unfold to_smt2. simpl. rewrite map_map. apply map_ext. intros [c b]. destruct cs; reflexivity.
+  Qed.
+
+  (* main statement: the dumped query is satisfied exactly by the assignments that satisfy
+     every constraint ever handed to the path (regular or extending a sliced parent) *)
+  Theorem query_equals_constraints : forall ops s0 (p : path) cs e,
+    run (empty_path cond s0) ops = Some p ->
+    ((exists b, Forall (holds sem e b) (dump_asserts cs (to_smt2 cond cid p cs)))
+     <-> path_constraints_hold sem e (accumulated cond ops)).
+  Proof.
+    intros ops s0 p cs e Hrun. unfold path_constraints_hold.
+    pose proof (run_conds _ _ _ Hrun) as Hc. simpl in Hc.
+    assert (Hsem : Forall (sem e) (conds p) <-> Forall (sem e) (accumulated cond ops)).
+    { rewrite Hc. rewrite add_all_sem. split; [intros [_ H]; exact H | intros H; split; [constructor | exact H]]. }
+    rewrite <- Hsem. destruct cs.
+    - apply dump_cached_sem.
+    - split.
+      + intros (b & H). apply (dump_plain_sem e b p). exact H.
+      + intros H. exists (fun _ => true). apply dump_plain_sem. exact H.
+  Qed.
+
+  (* syntactic form: nothing dropped, nothing added, order kept *)
+  Theorem all_conditions : forall ops s0 (p : path) cs,
+    run (empty_path cond s0) ops = Some p ->
+    map (fun a => match a with QPlain c => c | QTracked _ c => c end) (fst (to_smt2 cond cid p cs))
+      = add_all [] (accumulated cond ops)
+    /\ snd (to_smt2 cond cid p cs) = map cid (add_all [] (accumulated cond ops)).
+  Proof.
+    intros ops s0 p cs Hrun. pose proof (run_conds _ _ _ Hrun) as Hc. simpl in Hc.
+    rewrite to_smt2_asserted, to_smt2_ids, Hc. split; reflexivity.
+  Qed.
+
+  (* slicing never changes `conditions` (hence never the query), only the solver *)
+  Lemma slice_conds : forall (p q : path) vs, slice cond p vs = Some q -> conditions q = conditions p.
+  Proof. intros p q vs H. unfold slice in H. destruct (sliced p); [discriminate|]. inversion H; reflexivity. Qed.
+
+  Lemma extend_path_conds : forall (p parent : path), conditions (extend_path cond p parent) = conditions parent.
+  Proof. reflexivity. Qed.
+End PathProofs.
